@@ -7,7 +7,7 @@ HERE = os.path.dirname(os.path.dirname(os.path.abspath(__file__)))
 
 ALL = ['C%02d' % i for i in range(1, 21)]
 
-EXTRA2 = {'C01': ' Rounds 6-7: the bundled providing middlewares with non-default names and several fields; undeliverable names (_error, self) in the reference.', 'C02': " Rounds 6-7: shared ContextProcessor histories, bundled providers' values.", 'C03': ' Rounds 6-7: one-shot iterables, the Cline spelling, stock middlewares in the middle of the stack, a route added after the meta page was served.', 'C04': " Rounds 6-7: bundled middlewares' provided names x 8 argument shapes, prefix bindings as a source, decorated functions, documented-reserved names (found and fixed: _error, self).", 'C05': " Rounds 6-7: segments ending in a newline (found and fixed: $ vs \\\\Z), dot segments, '+' paths through the development server's parsing.", 'C06': ' Rounds 6-7: requests while the table grows, profile / development-server / absolute-form variants, bindings named like error options.', 'C07': ' Rounds 6-7: development-server environ seam, 405 histories, Cline placement, embedded root route.', 'C08': ' Rounds 6-7: render_error returning no response (found and fixed), keyword-only handler twin, lazily failing JSON, unsupported mimetype, profiled requests in the histories.', 'C09': ' Rounds 6-7: client view of every body (content coding, declared charset), gzip application, rendered route.', 'C10': ' Rounds 6-7: 4-tuple spelling, WSGI-wrapping middleware types.', 'C11': ' Rounds 6-7: failing operations retried, render-factory isolation, one error instance shared by applications (found and fixed), shared Redirector / meta peripherals.', 'C12': ' Rounds 6-7: cold-application pairs (fresh World per execution), GET/POST pair on one renderer, JSONP callbacks.', 'C13': ' Rounds 6-7: instance-level unique flag, reroutes behind stock middlewares, request counter past 2**32 / 2**64, route-less application.', 'C14': ' Rounds 6-7: add at index 0, future-dated file.', 'C15': ' Rounds 6-7: text-chunk bodies, missing Content-Type, read-only contexts (found and fixed), Redirector endpoint.', 'C16': ' Rounds 6-7: two cookies behind gzip, equal-not-identical expiry constants, returned-403 operation, sibling cookie applications.', 'C17': ' Rounds 6-7: non-Response responses, non-dict mappings, renderers behind GzipMiddleware.', 'C18': ' Rounds 6-7: non-identifier resource names (found and fixed), host context processors (found and fixed: secret in the JSON view), static-first mount, SCRIPT_NAME.', 'C19': ' Rounds 6-7: explicit code=, embedded application with its own StatsMiddleware.', 'C20': ' Rounds 6-7: long non-ASCII texts, empty and slash-only PATH_INFO.'}
+EXTRA2 = {'C01': ' Rounds 6-7: the bundled providing middlewares with non-default names and several fields; undeliverable names (_error, self) in the reference.', 'C02': " Rounds 6-7: shared ContextProcessor histories, bundled providers' values.", 'C03': ' Rounds 6-7: one-shot iterables, the Cline spelling, stock middlewares in the middle of the stack, a route added after the meta page was served.', 'C04': " Rounds 6-7: bundled middlewares' provided names x 8 argument shapes, prefix bindings as a source, decorated functions, documented-reserved names (found and fixed: _error, self).", 'C05': " Rounds 6-7: segments ending in a newline (found and fixed: $ vs \\\\Z), dot segments, '+' paths through the development server's parsing.", 'C06': ' Rounds 6-7: requests while the table grows, profile / development-server / absolute-form variants, bindings named like error options.', 'C07': ' Rounds 6-7: development-server environ seam, 405 histories, Cline placement, embedded root route.', 'C08': ' Rounds 6-7: render_error returning no response (found and fixed), keyword-only handler twin, lazily failing JSON, unsupported mimetype, profiled requests in the histories.', 'C09': ' Rounds 6-7: client view of every body (content coding, declared charset), gzip application, rendered route.', 'C10': ' Rounds 6-7: 4-tuple spelling, WSGI-wrapping middleware types.', 'C11': ' Rounds 6-7: failing operations retried, render-factory isolation, one error instance shared by applications (found and fixed), shared Redirector / meta peripherals.', 'C12': ' Rounds 6-7: cold-application pairs (fresh World per execution), GET/POST pair on one renderer, JSONP callbacks, cold-process executions (one fresh interpreter per schedule) for the debug error pages.', 'C13': ' Rounds 6-7: instance-level unique flag, reroutes behind stock middlewares, request counter past 2**32 / 2**64, route-less application.', 'C14': ' Rounds 6-7: add at index 0, future-dated file.', 'C15': ' Rounds 6-7: text-chunk bodies, missing Content-Type, read-only contexts (found and fixed), Redirector endpoint.', 'C16': ' Rounds 6-7: two cookies behind gzip, equal-not-identical expiry constants, returned-403 operation, sibling cookie applications.', 'C17': ' Rounds 6-7: non-Response responses, non-dict mappings, renderers behind GzipMiddleware.', 'C18': ' Rounds 6-7: non-identifier resource names (found and fixed), host context processors (found and fixed: secret in the JSON view), static-first mount, SCRIPT_NAME.', 'C19': ' Rounds 6-7: explicit code=, embedded application with its own StatsMiddleware.', 'C20': ' Rounds 6-7: long non-ASCII texts, empty and slash-only PATH_INFO.'}
 
 # what the drivers gained after the table below was written (rounds 3-5); appended to the level text
 EXTRA = {
